@@ -358,15 +358,17 @@ Fixpoint multisig_loop (fuel : nat) (c : cfg) (e : see) (code : bytes) (isig ike
   end.
 
 (* FindAndDelete of every signature *)
-Fixpoint multisig_fad (c : cfg) (code : bytes) (sigs : list bytes) : bytes * bool :=
+(* [keys]: the public keys of the operation; a signature mocked for one of them is exempt from the CONST_SCRIPTCODE error *)
+Fixpoint multisig_fad (c : cfg) (keys : list bytes) (code : bytes) (sigs : list bytes) : bytes * bool :=
   match sigs with
   | [] => (code, false)
   | s :: r =>
       if c_sigver c =? SV_BASE then
         let '(code', found) := find_and_delete code (push_data s) in
-        if (0 <? found) && has_flag (c_flags c) SCRIPT_VERIFY_CONST_SCRIPTCODE then (code', true)
-        else multisig_fad c code' r
-      else multisig_fad c code r
+        let mocked := match pv_lookup (c_pv_map c) s with Some k => existsb (bytes_eqb k) keys | None => false end in
+        if (0 <? found) && has_flag (c_flags c) SCRIPT_VERIFY_CONST_SCRIPTCODE && negb mocked then (code', true)
+        else multisig_fad c keys code' r
+      else multisig_fad c keys code r
   end.
 
 (* the clean-up loop [while (i-- > 1)]: pops i-1 items, with the NULLFAIL test on the signature items *)
@@ -408,7 +410,8 @@ Definition op_checkmultisig (c : cfg) (e : see) (opcode : Z) : see * status :=
             | None => (e, SCrash CRASH_DANGLING)
             | Some code0 =>
               let sigs := firstn (Z.to_nat nSigs) (skipn (Z.to_nat (isig - 1)) (e_stack e)) in
-              let '(code, fadfail) := multisig_fad c code0 sigs in
+              let keys := firstn (Z.to_nat nKeys) (skipn (Z.to_nat (ikey - 1)) (e_stack e)) in
+              let '(code, fadfail) := multisig_fad c keys code0 sigs in
               if fadfail then fail e SCRIPT_ERR_SIG_FINDANDDELETE
               else
                 let '(e1, st, fSuccess) := multisig_loop (S (Z.to_nat nKeys)) c e code isig ikey nSigs nKeys in
